@@ -230,7 +230,7 @@ def analyse(did, out):
     # route 2: interpreter
     try:
         act = reset_polarity(el)
-        todo = list(htr.items()) + (list(tr.items()) if nresets <= 1 else [])   # period traces cannot name several reset pins
+        todo = list(htr.items()) + [(k, t) for k, t in tr.items() if period_trace_usable(t)]
         for tag, t in todo:
             m = S.replay_trace(el, t, reset_active=act, stats=r["stats"], meta=meta)
             if m:
@@ -258,6 +258,11 @@ def analyse(did, out):
     except (P.LiftError, S.VhdlRuntimeError) as ex:
         r["interp"] = "error"; r["interp_reason"] = f"{type(ex).__name__}: {ex}"
     return r
+
+
+def period_trace_usable(t):
+    """nd::runTrace logs reset events without the pin's name: usable only if the simulator has a single reset pin"""
+    return bool(t.get("cycles")) and sum(1 for e in t["cycles"][0][2] if e[0] == "R") <= 1
 
 
 def known_pessimism(el, t, act, m, meta=None):
@@ -433,7 +438,7 @@ def main():
         mf = d / f"{did}.meta"
         meta = dict(x.split("=", 1) for x in mf.read_text().split()) if mf.exists() else {}
         nres = len([x for x in meta.get("resets", "-").split(",") if x != "-"]) if mf.exists() else 1
-        todo = list(S.parse_htraces(d / f"{did}.htrace").items()) + (list(circ.parse_traces(d / f"{did}.trace").items()) if nres <= 1 else [])
+        todo = list(S.parse_htraces(d / f"{did}.htrace").items()) + [(k, t) for k, t in circ.parse_traces(d / f"{did}.trace").items() if k != "SKIP" and period_trace_usable(t)]
         for tag, t in todo:
             if tag == "SKIP":
                 continue
